@@ -1,1 +1,2 @@
 import Dalek.Props.C11.Kernels
+import Dalek.Props.C11.Formulas
